@@ -11,6 +11,7 @@ CONSTANTS
  DevKeepBrokers = FALSE
  DevIdFilterAll = TRUE
  DevDropErrTopics = FALSE
+ DevStaleIdCache = FALSE
 INIT Init
 NEXT Next
 INVARIANTS C28_OnlyProxyBrokers C28_OnlyProxyLeaders C28_OnlyProxyCoordinator C28_TopologyKept 
